@@ -191,7 +191,15 @@ GrammarSpec gen_grammar(Rng &r) {
         }
       }
       if (k > 0 && r.chance(1, 10) && !rd.rhs.empty()) {
-        rd.rhs[(size_t)r.below(rd.rhs.size())] = "error";
+        // Not as the first symbol of a rule of the start symbol: yaep then does not add `$S : error $eof',
+        // error recovery can end without any alternative and uses an uninitialised recovery state
+        // (a recovery-completion defect, C07, outside the claimed properties; see DESIGN.md §7).
+        size_t pos = (size_t)r.below(rd.rhs.size());
+        if (i == 0 && pos == 0) {
+          if (rd.rhs.size() == 1) rd.rhs.insert(rd.rhs.begin(), g.terms[(size_t)r.below(g.terms.size())].name);
+          pos = 1;
+        }
+        rd.rhs[pos] = "error";
         rd.rhs.push_back(g.terms[(size_t)r.below(g.terms.size())].name);
       }
       if (rd.rhs.size() == 1 && rd.rhs[0] == rd.lhs) rd.rhs.push_back(g.terms[0].name);
@@ -346,7 +354,7 @@ int pick_setter_value(Rng &r, Setter s) {
 
 } // namespace
 
-Plan gen_hist_plan(uint64_t seed, bool oom) {
+Plan gen_hist_plan(uint64_t seed, bool oom, int focus) {
   static uint64_t cached_seed = ~0ull;
   static Pool cached;
   uint64_t pool_seed = seed >> 8;
@@ -356,6 +364,7 @@ Plan gen_hist_plan(uint64_t seed, bool oom) {
   Plan plan;
   plan.seed = seed;
   plan.mode = oom ? "oom" : "hist";
+  plan.focus = focus;
   static const int knobw[] = {0, 0, 0, 1, 1, 2, 2, 3, 3, 4};
   plan.cfg.knobs = knobw[r.below(10)];
   static const uint8_t pz[] = {0xAB, 0xCD, 0x5A, 0xFF, 0x01};
@@ -376,7 +385,12 @@ Plan gen_hist_plan(uint64_t seed, bool oom) {
   std::vector<GTask> tasks((size_t)ntasks);
   for (int t = 0; t < ntasks; t++) {
     GTask &T = tasks[(size_t)t];
-    T.arche = (int)r.below(4);
+    {
+      static const int w[4][4] = {{3, 3, 2, 2}, {1, 2, 6, 1}, {2, 1, 1, 6}, {3, 3, 2, 2}};
+      const int *ww = w[focus & 3];
+      int tot = ww[0] + ww[1] + ww[2] + ww[3], x = (int)r.below((uint64_t)tot);
+      T.arche = x < ww[0] ? 0 : x < ww[0] + ww[1] ? 1 : x < ww[0] + ww[1] + ww[2] ? 2 : 3;
+    }
     auto emit = [&](Op op) { op.task = t + 1; T.queue.push_back(op); };
     auto mk = [&](OpKind k) { Op o; o.kind = k; return o; };
     auto add_create = [&]() { emit(mk(OP_CREATE)); T.objs.push_back(GObj()); };
